@@ -3,6 +3,8 @@ package checks
 import (
 	"bytes"
 	"fmt"
+	qcsv "github.com/tobgu/qframe/config/csv"
+	"github.com/tobgu/qframe/function"
 	"math"
 	"sort"
 	"strings"
@@ -328,6 +330,16 @@ func c01Ops() []histOp {
 		frameOp("Eval(ev=i+k)", func(e *histEnv, q qframe.QFrame) qframe.QFrame { return q.Eval("ev", e.exprFlat) }),
 		frameOp("Eval(ev=(i+1)*k)", func(e *histEnv, q qframe.QFrame) qframe.QFrame { return q.Eval("ev", e.exprNest) }),
 		frameOp("Eval(i=abs(i))", func(e *histEnv, q qframe.QFrame) qframe.QFrame { return q.Eval("i", e.exprAbs) }),
+		// the exported string functions on the enum column (through Eval and through Apply)
+		frameOp("Eval(u=lower(upper(e)))", func(e *histEnv, q qframe.QFrame) qframe.QFrame {
+			return q.Eval("u", qframe.Expr("lower", qframe.Expr("upper", types.ColumnName("e"))))
+		}),
+		frameOp("Apply(function.UpperS e->e)", func(e *histEnv, q qframe.QFrame) qframe.QFrame {
+			return q.Apply(qframe.Instruction{Fn: function.UpperS, DstCol: "e", SrcCol1: "e"})
+		}),
+		frameOp("Apply(function.ConcatS e,s->n2)", func(e *histEnv, q qframe.QFrame) qframe.QFrame {
+			return q.Apply(qframe.Instruction{Fn: function.ConcatS, DstCol: "n2", SrcCol1: "e", SrcCol2: "s"})
+		}),
 		frameOp("WithRowNums(rn)", func(e *histEnv, q qframe.QFrame) qframe.QFrame { return q.WithRowNums("rn") }),
 		frameOp("Distinct(k)", func(e *histEnv, q qframe.QFrame) qframe.QFrame { return q.Distinct(groupby.Columns("k")) }),
 		frameOp("Distinct()", func(e *histEnv, q qframe.QFrame) qframe.QFrame { return q.Distinct() }),
@@ -350,6 +362,14 @@ func c01Ops() []histOp {
 			return []*member{nm}
 		}},
 		observerOp("ToCSV", func(e *histEnv, fam []*member, q qframe.QFrame) { var b bytes.Buffer; _ = q.ToCSV(&b) }),
+		observerOp("ToCSV(Columns reversed, no header)", func(e *histEnv, fam []*member, q qframe.QFrame) {
+			names := q.ColumnNames()
+			for i, j := 0, len(names)-1; i < j; i, j = i+1, j-1 {
+				names[i], names[j] = names[j], names[i]
+			}
+			var b bytes.Buffer
+			_ = q.ToCSV(&b, qcsv.Columns(names), qcsv.Header(false))
+		}),
 		observerOp("ToJSON", func(e *histEnv, fam []*member, q qframe.QFrame) { var b bytes.Buffer; _ = q.ToJSON(&b) }),
 		observerOp("String", func(e *histEnv, fam []*member, q qframe.QFrame) { _ = q.String() }),
 		observerOp("Equals(first)", func(e *histEnv, fam []*member, q qframe.QFrame) {
@@ -366,6 +386,38 @@ func c01Ops() []histOp {
 		// grouper operations
 		{name: "Aggregate(sum i,count,fn f)", on: mGrouper, apply: func(e *histEnv, fam []*member, m *member) []*member {
 			return []*member{newFrameMember(m.g.Aggregate(e.aggs...), "Aggregate")}
+		}},
+		{name: "Aggregate(functions that sort and overwrite their argument)", on: mGrouper, apply: func(e *histEnv, fam []*member, m *member) []*member {
+			return []*member{newFrameMember(m.g.Aggregate(
+				qframe.Aggregation{Fn: func(v []int) int {
+					sort.Ints(v)
+					r := 0
+					if len(v) > 0 {
+						r = v[len(v)/2]
+					}
+					for i := range v {
+						v[i] = -99
+					}
+					return r
+				}, Column: "i", As: "med"},
+				qframe.Aggregation{Fn: func(v []float64) float64 {
+					for i := range v {
+						v[i] = 77
+					}
+					return float64(len(v))
+				}, Column: "f", As: "fl"},
+				qframe.Aggregation{Fn: func(v []bool) bool {
+					for i := range v {
+						v[i] = !v[i]
+					}
+					return len(v) > 1
+				}, Column: "b", As: "bb"},
+				qframe.Aggregation{Fn: func(v []*string) *string {
+					for i := range v {
+						v[i] = nil
+					}
+					return nil
+				}, Column: "s", As: "ss"}), "Aggregate(scribbling)")}
 		}},
 		{name: "QFrames", on: mGrouper, apply: func(e *histEnv, fam []*member, m *member) []*member {
 			fs, err := m.g.QFrames()
